@@ -3,6 +3,7 @@ import Gomjml.Core.Lexer
 import Driver.CacheP
 import Driver.SfP
 import Gomjml.Core.Cli
+import Driver.ApiP
 /-! Line-protocol driver (E3): first word selects a sub-protocol, one output line per input line.
     Imports only core-only Model/Spec modules so that it links as a `lean_exe`. -/
 open Gomjml
@@ -23,6 +24,8 @@ def handle (line : String) : String :=
   | "cache" :: args => Driver.CacheP.handle args
   | "sf" :: args => Driver.SfP.handle args
   | "cli" :: args => cliHandle args
+  | "api" :: args => Driver.ApiP.handle args
+  | "pick" :: args => Driver.ApiP.pickHandle args
   | _ => "bad-request"
 
 partial def loop (hin hout : IO.FS.Stream) : IO Unit := do
